@@ -1,7 +1,7 @@
 //! Events, coverage counters, violations and the panic guard shared by all monitors.
 use serde_json::{json, Map, Value};
 use std::cell::RefCell;
-use std::collections::{BTreeMap, HashSet};
+use std::collections::BTreeMap;
 use std::panic::{catch_unwind, AssertUnwindSafe};
 use std::sync::Once;
 
@@ -24,6 +24,9 @@ pub struct Cfg {
     pub threads: usize,
     /// name of the layer for the result file (native, miri, memcheck, asan, release)
     pub layer: String,
+    /// (k, n): this process runs only the cases with index % n == k of every `par_cases` call
+    /// (sanitizer layers are sharded over processes; the driver merges the shard results)
+    pub shard: (usize, usize),
 }
 
 impl Cfg {
@@ -68,10 +71,14 @@ pub struct AssertStat {
 #[derive(Default)]
 pub struct Report {
     pub evaluations: u64,
-    pub regimes: BTreeMap<String, u64>,
-    pub assertions: BTreeMap<String, AssertStat>,
+    /// (regime, count); small linear tables: a BTreeMap<String,_> lookup costs ~5 ms under Miri
+    pub regimes: Vec<(String, u64)>,
+    last_regime: usize,
+    pub assertions: Vec<(String, AssertStat)>,
+    last_assert: usize,
     pub hooks: BTreeMap<String, u64>,
-    pub distinct: HashSet<u64>,
+    /// hashes of non-trivial cases (deduplicated when the report is finalised)
+    pub distinct: Vec<u64>,
     pub samples: Vec<Value>,
     pub violations: BTreeMap<String, Violation>,
     pub inconclusive: Vec<String>,
@@ -93,16 +100,51 @@ impl Report {
     /// One generated case / execution under the named regime (a class, not an instance).
     pub fn case(&mut self, regime: &str) {
         self.evaluations += 1;
-        *self.regimes.entry(regime.to_string()).or_insert(0) += 1;
+        self.seen(regime, 1);
     }
     /// Count extra observations of a regime without counting an evaluation.
     pub fn seen(&mut self, regime: &str, n: u64) {
-        *self.regimes.entry(regime.to_string()).or_insert(0) += n;
+        if let Some(e) = self.regimes.get_mut(self.last_regime) {
+            if e.0 == regime {
+                e.1 += n;
+                return;
+            }
+        }
+        match self.regimes.iter().position(|e| e.0 == regime) {
+            Some(i) => {
+                self.regimes[i].1 += n;
+                self.last_regime = i;
+            }
+            None => {
+                self.regimes.push((regime.to_string(), n));
+                self.last_regime = self.regimes.len() - 1;
+            }
+        }
+    }
+    pub fn regime_count(&self, regime: &str) -> u64 {
+        self.regimes.iter().find(|e| e.0 == regime).map(|e| e.1).unwrap_or(0)
+    }
+    fn assert_stat(&mut self, assertion: &str) -> &mut AssertStat {
+        let hit = matches!(self.assertions.get(self.last_assert), Some(e) if e.0 == assertion);
+        if !hit {
+            self.last_assert = match self.assertions.iter().position(|e| e.0 == assertion) {
+                Some(i) => i,
+                None => {
+                    self.assertions.push((assertion.to_string(), AssertStat::default()));
+                    self.assertions.len() - 1
+                }
+            };
+        }
+        &mut self.assertions[self.last_assert].1
     }
     /// Register the hash of a case; only non-trivial ones are counted as distinct.
     pub fn distinct(&mut self, key: u64, nontrivial: bool) {
         if nontrivial {
-            self.distinct.insert(key);
+            self.distinct.push(key);
+            if self.distinct.len() > (1 << 20) {
+                self.distinct.sort_unstable();
+                self.distinct.dedup();
+            }
         }
     }
     /// Evaluate one named assertion. Returns `ok`.
@@ -113,7 +155,7 @@ impl Report {
         ok: bool,
         detail: impl FnOnce() -> Value,
     ) -> bool {
-        let st = self.assertions.entry(assertion.to_string()).or_default();
+        let st = self.assert_stat(assertion);
         st.checked += 1;
         if !ok {
             st.failed += 1;
@@ -187,10 +229,10 @@ impl Report {
     pub fn merge(&mut self, o: Report) {
         self.evaluations += o.evaluations;
         for (k, v) in o.regimes {
-            *self.regimes.entry(k).or_insert(0) += v;
+            self.seen(&k, v);
         }
         for (k, v) in o.assertions {
-            let e = self.assertions.entry(k).or_default();
+            let e = self.assert_stat(&k);
             e.checked += v.checked;
             e.failed += v.failed;
         }
@@ -198,6 +240,8 @@ impl Report {
             *self.hooks.entry(k).or_insert(0) += v;
         }
         self.distinct.extend(o.distinct);
+        self.distinct.sort_unstable();
+        self.distinct.dedup();
         for s in o.samples {
             if self.samples.len() < MAX_SAMPLES {
                 self.samples.push(s);
@@ -240,13 +284,13 @@ impl Report {
         }
     }
     pub fn to_json(&self, prop: &str, cfg: &Cfg, wall_s: f64) -> Value {
-        let mut inconclusive = self.inconclusive.clone();
-        for (r, min) in &self.required {
-            let got = self.regimes.get(r).copied().unwrap_or(0).max(self.hooks.get(r).copied().unwrap_or(0));
-            if got < *min {
-                inconclusive.push(format!("regime/site '{}' observed {} times, need >= {}", r, got, min));
-            }
-        }
+        let inconclusive = self.inconclusive.clone();
+        let ndistinct = {
+            let mut d = self.distinct.clone();
+            d.sort_unstable();
+            d.dedup();
+            d.len()
+        };
         let viol: Vec<Value> = self
             .violations
             .iter()
@@ -261,13 +305,15 @@ impl Report {
             "layer": cfg.layer,
             "lite": cfg.lite,
             "evaluations": self.evaluations,
-            "distinct_nontrivial": self.distinct.len(),
+            "distinct_nontrivial": ndistinct,
             "rule": self.rule,
             "exhaustive": self.exhaustive,
             "samples": self.samples,
-            "regimes": self.regimes,
+            "regimes": self.regimes.iter().map(|(k, v)| (k.clone(), json!(v))).collect::<Map<String, Value>>(),
             "assertions": self.assertions.iter().map(|(k,v)| (k.clone(), json!({"checked": v.checked, "failed": v.failed}))).collect::<Map<String,Value>>(),
             "hooks": self.hooks,
+            "required": self.required,
+            "shard": [cfg.shard.0, cfg.shard.1],
             "notes": self.notes,
             "violations": viol,
             "inconclusive": inconclusive,
@@ -401,6 +447,10 @@ where
         compute::verif_hooks::reset();
         let mut i = lo;
         while i < hi {
+            if i % cfg.shard.1.max(1) != cfg.shard.0 {
+                i += step;
+                continue;
+            }
             let cs = case_seed(cfg.seed, stream, i as u64);
             let mut rng = Rng::new(cs);
             alea::set_seed(cs | 1);
